@@ -99,6 +99,8 @@ func (s *Seam) Read(p []byte) (int, error) {
 	if s.ConstOf != nil {
 		if v := s.ConstOf(); v >= 0 {
 			ans = AnsConst + v&0xff
+		} else if v == -2 {
+			ans = AnsErr // the source is down for this caller
 		}
 	}
 	rec := ReadRec{Call: call, Requested: len(p), Answer: ans}
